@@ -29,7 +29,8 @@ type seqEnv struct {
 	colls   map[string]*rosmar.Collection // via h1
 	colls2  map[string]*rosmar.Collection // via h2
 	feeds   map[string]*feedBuf
-	multi   *feedBuf // one bucket-level feed over all three collections
+	multi   *feedBuf            // one bucket-level feed over all three collections
+	kfeeds  map[string]*feedBuf // keys-only feeds, registered before the full feeds
 	markers int
 	vdef    map[string]string // design-document variant installed per collection
 }
@@ -81,6 +82,15 @@ func newSeqEnv(mode, scratch string) (*seqEnv, error) {
 			return nil, err
 		}
 	}
+	e.kfeeds = map[string]*feedBuf{}
+	for _, c := range collNames {
+		kb := newFeedBuf()
+		e.kfeeds[c] = kb
+		kargs := sgbucket.FeedArguments{ID: "live-keys-" + c, Backfill: sgbucket.FeedNoBackfill, KeysOnly: true, Terminator: kb.term, DoneChan: kb.done}
+		if err := e.colls2[c].StartDCPFeed(context.Background(), kargs, kb.callback, nil); err != nil {
+			return nil, err
+		}
+	}
 	for _, c := range collNames {
 		fb := newFeedBuf()
 		e.feeds[c] = fb
@@ -102,6 +112,9 @@ func newSeqEnv(mode, scratch string) (*seqEnv, error) {
 func (e *seqEnv) close() {
 	if e.multi != nil {
 		close(e.multi.term)
+	}
+	for _, f := range e.kfeeds {
+		close(f.term)
 	}
 	for _, f := range e.feeds {
 		close(f.term)
@@ -135,6 +148,7 @@ type SeqStep struct {
 	Post     []PostDoc          `json:"post"`     // documents whose observation changed since the previous line
 	Live     []CollEvs          `json:"live"`     // per collection: events delivered by the running feed since the previous line
 	Mlive    []CollEvs          `json:"mlive"`    // the same, as delivered by the bucket-level feed over all collections (split by CollectionID)
+	Klive    []CollEvs          `json:"klive"`    // events of the keys-only feeds (key, opcode, CAS, revision, expiry only)
 	Dump     []CollEvs          `json:"dump"`     // per collection whose backfill changed: Dump feed from the path's start CAS
 	Aux      []AuxObs           `json:"aux"`      // other observers (query, views) that changed
 	Start    map[string]*CasRef `json:"start"`    // reset lines: backfill start CAS per collection
@@ -164,6 +178,7 @@ type seqRunner struct {
 	errs      *[]string
 	aux       bool
 	lastMulti []CollEvs
+	lastKeys  []CollEvs
 }
 
 func absKeyFn(suffix string) func(string) string {
@@ -233,7 +248,7 @@ func (sr *seqRunner) runPath(trNo int, ops []GenOp) error {
 		startRefs[c] = tr.C(startCas[c])
 	}
 	tr.Add(SeqStep{K: "reset", Tr: trNo, Mode: env.mode, Coll: "-", Op: "-", A: x.emptyArgs(), R: Res{Cls: "ok", Body: NoBody(), Cas: tr.C(0)},
-		Post: []PostDoc{}, Live: []CollEvs{}, Dump: []CollEvs{}, Aux: []AuxObs{}, Start: startRefs, P: "-", Shown: []*CasRef{}, Dump2: []Dump2Obs{}, Mlive: []CollEvs{}})
+		Post: []PostDoc{}, Live: []CollEvs{}, Dump: []CollEvs{}, Aux: []AuxObs{}, Start: startRefs, P: "-", Shown: []*CasRef{}, Dump2: []Dump2Obs{}, Mlive: []CollEvs{}, Klive: []CollEvs{}})
 	prevDoc := map[string]string{}
 	{
 		// fresh keys: the trace specification starts every path from "all absent"; only deviations are logged
@@ -260,7 +275,7 @@ func (sr *seqRunner) runPath(trNo int, ops []GenOp) error {
 		a, r := x.Exec(coll, env.h1, &gop)
 		a.Key = op.Key
 		step := SeqStep{K: "call", Tr: trNo, I: i + 1, Mode: env.mode, Coll: op.Coll, Op: op.Op, A: a, R: r,
-			Post: []PostDoc{}, Live: []CollEvs{}, Dump: []CollEvs{}, Aux: []AuxObs{}, Start: startRefs, P: "-", Shown: []*CasRef{}, Dump2: []Dump2Obs{}, Mlive: []CollEvs{}}
+			Post: []PostDoc{}, Live: []CollEvs{}, Dump: []CollEvs{}, Aux: []AuxObs{}, Start: startRefs, P: "-", Shown: []*CasRef{}, Dump2: []Dump2Obs{}, Mlive: []CollEvs{}, Klive: []CollEvs{}}
 		if r.Cas != nil && r.Cas.raw > maxCas && r.Cls == "ok" && op.Op != "SetWithMeta" && op.Op != "DeleteWithMeta" {
 			maxCas = r.Cas.raw
 		}
@@ -271,6 +286,7 @@ func (sr *seqRunner) runPath(trNo int, ops []GenOp) error {
 		}
 		step.Live = lives
 		step.Mlive = sr.lastMulti
+		step.Klive = sr.lastKeys
 		// projection of every path key in every collection
 		for _, c := range collNames {
 			for _, k := range pathKeys {
@@ -414,6 +430,15 @@ func (sr *seqRunner) flushFeeds() (map[string][]sgbucket.FeedEvent, error) {
 		}
 		out[c] = evs
 	}
+	for _, c := range collNames {
+		if kb := env.kfeeds[c]; kb != nil {
+			evs, err := kb.drainUntilKey("~mark", 10*time.Second, env.markers)
+			if err != nil {
+				return nil, fmt.Errorf("keys-only feed %s: %w", c, err)
+			}
+			out["keys:"+c] = evs
+		}
+	}
 	// the bucket-level feed delivers one marker per collection
 	if env.multi != nil {
 		var all []sgbucket.FeedEvent
@@ -445,6 +470,21 @@ func (sr *seqRunner) collectLive(x *Ctx, absKey func(string) string, suffix stri
 			ce.Evs = append(ce.Evs, x.absEvent(&raw[c][j], absKey))
 		}
 		out = append(out, ce)
+	}
+	sr.lastKeys = nil
+	for _, c := range collNames {
+		ce := CollEvs{C: c, Evs: []Ev{}}
+		for j := range raw["keys:"+c] {
+			k := string(raw["keys:"+c][j].Key)
+			if strings.HasPrefix(k, "~") {
+				continue
+			}
+			e := raw["keys:"+c][j]
+			e.Value = nil
+			e.DataType &^= sgbucket.FeedDataTypeXattr // a keys-only event carries neither body nor xattrs
+			ce.Evs = append(ce.Evs, x.absEvent(&e, absKey))
+		}
+		sr.lastKeys = append(sr.lastKeys, ce)
 	}
 	// the bucket-level feed's events, split by the collection id they carry
 	sr.lastMulti = nil
